@@ -644,3 +644,7 @@ mod tests {
     */
   }
 }
+
+#[cfg(rustdds_verif)]
+#[path = "/verif/harness/incrate/access/datasample_cache.rs"]
+mod verif_access;
